@@ -19,6 +19,11 @@ VALS = [
     {'id': 0, 't': '{x]', 'ok': False, 'kind': 'str'},
     {'id': 0, 't': 'x', 'ok': False, 'kind': 'str'},
     {'id': 0, 't': '[y}', 'ok': False, 'kind': 'str'},
+    # (new values go at the end: the operation table refers to values by index)
+    {'id': 4, 't': '{}', 'ok': True, 'kind': 'obj'},      # groups taken from a PARSED document: an empty one ...
+    {'id': 5, 't': '{p]q}', 'ok': True, 'kind': 'obj'},   # ... and one whose text the reader splits into several tokens
+    {'id': 0, 't': '{}', 'ok': True, 'kind': 'str'},      # the same texts as unparsed strings (equal to the parsed groups)
+    {'id': 0, 't': '{p]q}', 'ok': True, 'kind': 'str'},
 ]
 NOV = {'id': 0, 't': '', 'ok': True, 'kind': 'str'}
 
@@ -34,6 +39,8 @@ def all_ops():
         o.append(op('remove', v=v))
         for i in (-9, -2, -1, 0, 1, 2, 9):
             if v['kind'] == 'obj' and i in (-9, 9) and v['id'] == 3:
+                continue
+            if v['t'] in ('{}', '{p]q}') and i not in (0, -1):
                 continue
             o.append(op('insert', i=i, v=v))
     for v in VALS[:3]:
@@ -107,7 +114,8 @@ class Real(object):
             self.owner = self.soup.c
             self.pre, self.post = to_atoms('\\begin{c}'), to_atoms('\\end{c}')
         self.args = self.owner.args
-        self.pool = {1: BraceGroup('a'), 2: BracketGroup('b'), 3: BraceGroup('a')}
+        parsed = TexSoup('\\z{}{p]q}').z.args
+        self.pool = {1: BraceGroup('a'), 2: BracketGroup('b'), 3: BraceGroup('a'), 4: parsed[0], 5: parsed[1]}
         self.ident = {id(v): k for k, v in self.pool.items()}
 
     def val(self, v):
